@@ -1,3 +1,100 @@
 import XmpModel.Control
+/-! Helper lemmas for the C17 theorems over `Xmp.Control`. -/
 namespace Xmp.Control
+
+/-- order `p` exists and holds a pattern (for marker modules: not a 0xfe/0xff marker). -/
+def Valid (m : CMod) (p : Int) : Prop :=
+  0 ≤ p ∧ p < m.len ∧ m.xxoAt p < m.pat ∧ (m.marker = true → m.xxoAt p < 0xfe)
+
+/-- order `p` holds a pattern and belongs to sequence `q` (whose entry point is not after `p`:
+the scan only assigns orders from the entry point on; monitored per module by the check). -/
+def Member (m : CMod) (p q : Int) : Prop :=
+  Valid m p ∧ m.seqOf p = q ∧ 0 ≤ q ∧ q ≠ 0xff ∧ 0 ≤ m.entry q ∧ m.entry q ≤ p
+
+instance (m : CMod) (p : Int) : Decidable (Valid m p) := by unfold Valid; infer_instance
+instance (m : CMod) (p q : Int) : Decidable (Member m p q) := by unfold Member; infer_instance
+
+/-- the state `set_position` leaves behind when it accepts order `p` for sequence `seq`. -/
+def landed (m : CMod) (s : St) (seq p : Int) : St :=
+  let sc := m.seqAt seq
+  let f1 : Flow := if p > sc.scanOrd then { s.f with endPoint := 0 }
+    else { s.f with numRows := m.rowsOf (m.xxoAt p), endPoint := sc.scanNum, jumpline := 0 }
+  { s with sequence := seq, pos := (if p = 0 then -1 else p), f := resetFlow f1 }
+
+theorem skipMarkers_nomark (m : CMod) (dir start : Int) (n : Nat) (pos : Int)
+    (h : ¬(m.marker = true ∧ m.xxoAt pos = 0xfe)) :
+    skipMarkers m dir start (n + 1) pos = some pos := by
+  simp [skipMarkers, h]
+
+theorem valid_nomark {m : CMod} {p : Int} (h : Valid m p) : ¬(m.marker = true ∧ m.xxoAt p = 0xfe) := by
+  intro ⟨hm, hx⟩
+  have := h.2.2.2 hm
+  omega
+
+theorem valid_noend {m : CMod} {p : Int} (h : Valid m p) : ¬(m.marker = true ∧ m.xxoAt p = 0xff) := by
+  intro ⟨hm, hx⟩
+  have := h.2.2.2 hm
+  omega
+
+/-- `set_position` on an order holding a pattern, for a real sequence id. -/
+theorem setPosition_valid (m : CMod) (s : St) (p dir seq : Int) (hv : Valid m p)
+    (hseq : seq = if dir = 0 then m.seqOf p else s.sequence) (h1 : seq ≠ 0xff) (h2 : 0 ≤ seq) :
+    setPosition m s p dir = some (landed m s seq p) := by
+  obtain ⟨hp0, hpl, hpat, hmk⟩ := hv
+  have hnm := valid_nomark ⟨hp0, hpl, hpat, hmk⟩
+  have hne := valid_noend ⟨hp0, hpl, hpat, hmk⟩
+  unfold setPosition
+  simp only [← hseq]
+  have h3 : ¬ seq < 0 := by omega
+  simp only [h1, h3, if_false, hp0, hpl, and_self, if_true, skipFuel, skipMarkers_nomark m dir _ _ p hnm]
+  simp only [if_true, hpat, hne, if_false]
+  unfold landed
+  by_cases hso : p > (m.seqAt seq).scanOrd <;> simp [hso]
+
+/-- the state in which the reposition block of `xmp_play_frame` leaves the player when the
+target is order `t` of the current sequence. -/
+def entered (m : CMod) (s : St) (t ep : Int) : St :=
+  let o := m.infoAt t
+  let f1 : Flow := { s.f with endPoint := ep, jumpline := 0, jump := -1,
+                              numRows := m.rowsOf (m.xxoAt t), jumpInPat := -1 }
+  { s with ord := t, pos := t, row := 0, frame := 0,
+           speed := (if o.speed ≠ 0 then o.speed else s.speed), bpm := o.bpm, gvol := o.gvl,
+           time := o.time, st26 := o.st26,
+           f := (if m.lpReset then { f1 with loopStart := -1, loopCount := 0 } else f1) }
+
+/-- `end_point` as recomputed by the reposition block for a target `t`. -/
+def repoEndPoint (m : CMod) (s : St) (t : Int) : Int :=
+  let sc := m.seqAt s.sequence
+  let ep1 := if t = sc.entry then sc.scanNum else s.f.endPoint
+  if t > sc.scanOrd then 0 else ep1
+
+theorem nextOrderLoop_valid (m : CMod) (seq : Int) (n : Nat) (t : Int) (rg : Bool) (hv : Valid m t) :
+    nextOrderLoop m seq (n + 1) (t - 1) rg = some (t, rg) := by
+  obtain ⟨hp0, hpl, hpat, hmk⟩ := hv
+  have hne := valid_noend ⟨hp0, hpl, hpat, hmk⟩
+  have h1 : ¬ (t ≥ m.len) := by omega
+  have h2 : ¬ (m.pat ≤ m.xxoAt t) := by omega
+  have hmark : ¬(m.marker = true ∧ t < m.len ∧ m.xxoAt t = 255) := fun ⟨a, _, c⟩ => hne ⟨a, c⟩
+  simp [nextOrderLoop, nextOrderStep, h1, hmark, h2]
+
+/-- The reposition block enters exactly the pending order when it holds a pattern and is not
+before the entry point of the current sequence (`pos = -1` stands for the entry point). -/
+theorem reposition_valid (m : CMod) (s : St) (t : Int) (hv : Valid m t)
+    (hpos : s.pos = t ∨ (s.pos = -1 ∧ m.entry s.sequence = t)) (hent : m.entry s.sequence ≤ t) :
+    reposition m s = some (entered m s t (repoEndPoint m s t)) := by
+  have hpos1 : (if s.pos = -1 then (m.seqAt s.sequence).entry else s.pos) = t := by
+    rcases hpos with h | ⟨h, h'⟩
+    · have : ¬ (s.pos = -1) := by have := hv.1; omega
+      rw [if_neg this]; exact h
+    · rw [if_pos h]; exact h'
+  have hord : (if t - 1 < (m.seqAt s.sequence).entry then (m.seqAt s.sequence).entry - 1 else t - 1) = t - 1 := by
+    have : (m.seqAt s.sequence).entry ≤ t := hent
+    split <;> omega
+  unfold reposition
+  simp only [hpos1, hord, nextOrder, orderFuel]
+  rw [show (600 : Nat) = 599 + 1 from rfl, nextOrderLoop_valid m _ 599 t false hv]
+  simp only [Option.map_some]
+  unfold entered repoEndPoint updateFromOrdInfo
+  by_cases hl : m.lpReset = true <;> simp [hl]
+
 end Xmp.Control
